@@ -74,11 +74,11 @@ CFG = {
     "rule": "(a) sequential histories of AddBetween / PopMany(n) / clock advance on the real probes repository with ready and expiry times before, "
             "at and after the clock (+-256ns); (b) a pre-filled queue, then two PopMany consumers and one producer interleaved storage command by "
             "storage command (ZRANGEBYSCORE / MULTI-EXEC granularity) with clock ticks and a consumer death before/after a command; every probe "
-            "carries a unique port (identity), ready times are pairwise distinct (Redis orders equal scores by member text); compared: command "
+            "carries a unique port (identity; the oracle still compares the WHOLE payload - address, port, goal, retries, max, and for queued items the expiry - with the enqueued probe of that port), ready times are pairwise distinct (Redis orders equal scores by member text); compared: command "
             "trace, returned batches and expired counts, raw probes:* keys; oracle on the implementation's outputs: conservation of probes, "
             "at-most-once, batch size, not-early/not-late, never-queued, WHICH probes vanished (each vanished probe is attributable to a consumer's expired count: "
             "ready and past its expiry at that consumer's clock - no unexpired probe vanishes), batch order (every returned batch sorted by ready time; a violation is "
-            "classified late-past-ready = regression of PopMany's final sort, or batch-unsorted), keyspace consistency",
+            "classified late-past-ready = regression of PopMany's final sort, or batch-unsorted), keyspace consistency; a case the scheduler gave up on (HUNG) fails with sig=hung",
     "assumptions": [
         "a client reads the clock when it arrives at a storage command (the scheduler only moves the clock while every client is blocked at a command)",
         "probe identity = unique port number chosen by the generator (the repository's UUIDs are renamed canonically in dumps)",
